@@ -58,4 +58,39 @@ PROPS = {
     },
 }
 
+def nt_c20(lhs, impl):
+    f = lhs.split(" ")
+    # distinct by (set of control bytes present, number of tokens bucket, outcome shape)
+    ctl = set()
+    for tok in f[1:]:
+        if len(tok) >= 2 and all(c in "0123456789abcdef" for c in tok) and len(tok) % 2 == 0:
+            for b in bytes.fromhex(tok):
+                if b < 0x20 or b == 0x7f or b >= 0x80:
+                    ctl.add(b)
+    if not ctl:
+        return None
+    return (tuple(sorted(ctl))[:6], min(len(f), 40) // 4)
+
+PROPS["C20"] = {
+    "modules": ["WhatIs.Props.C20"],
+    "theorems": ["WhatIs.C20.sanitizes", "WhatIs.C20.no_raw_control", "WhatIs.C20.line_count",
+                 "WhatIs.C20.lines_eq_layout", "WhatIs.C20.encode_no_c0", "WhatIs.C20.sanitize_id_on_clean"],
+    "facts": {"cli.printInfo.sanitizes": True},
+    "nontrivial": nt_c20,
+    "rule": "Info trees fed to the REAL printInfo (verif build of cmd/decipher): every C0/DEL/C1 control (UTF-8 and raw byte "
+            "forms) and stray bytes at start/middle/end of description, attribute name, attribute value at depths 0..2, plus "
+            "random trees (depth <= 4) over control-laden strings. distinct non-trivial = distinct (set of control/high bytes "
+            "present, size bucket)",
+    "design_ref": "DESIGN.md §5 C20",
+    "level_text": "Proof: for ALL Info trees and indents, the model of printInfo writes exactly one line per description/attribute, "
+                  "indented by depth, and no control rune other than the line terminator (induction over the tree). Tied to main.go by "
+                  "the regenerated fact that every Info string passes through the sanitising wrapper and by a differential run of the "
+                  "real printInfo against the model on control-laden trees.",
+    "level_note": "Trusted: Lean kernel; translator fact extraction; Go fmt/os.Stdout; UTF-8 decode model used by the driver "
+                  "(validated by the correspondence); terminal behaviour is out of scope (the property stops at the byte stream).",
+    "technique": "Lean 4 proof (mutual structural induction over the Info tree) + regenerated fact + differential correspondence on the real printInfo",
+    "trusted_base": ["model of utf8.DecodeRuneInString (Base/Utf8.lean) validated by the correspondence"],
+    "assumptions": ["fmt.Printf writes its operands verbatim", "strings reach printInfo only through file.Info"],
+}
+
 NOT_CLAIMED = {}
